@@ -83,7 +83,12 @@ def coq_string(s):
     return '"' + s + '"'
 
 
-def dstm_of(n, fname):
+# all 128 bits of a uuid4 (a truncated one is NOT collision free)
+FRESH_UUID = ('str(uuid.uuid4())', 'uuid.uuid4()', 'str(uuid4())', 'uuid4()',
+              'uuid.uuid4().hex', 'uuid4().hex')
+
+
+def dstm_of(n, fname, cls=None):
     """ one statement of start()/reset()/stop() -> a [dstm] constructor """
     # self._mark = <int> | None
     if isinstance(n, ast.Assign) and len(n.targets) == 1 and \
@@ -98,9 +103,22 @@ def dstm_of(n, fname):
     # self._section_id = str(uuid.uuid4())   : a FRESH id on every call
     if isinstance(n, ast.Assign) and len(n.targets) == 1 and \
             U(n.targets[0]) == 'self._section_id':
-        need(U(n.value) in ('str(uuid.uuid4())', 'uuid.uuid4()',
-                            'str(uuid4())', 'uuid4()'),
-             f"{fname}: the section id is not a fresh uuid4: {U(n.value)}", n)
+        v = n.value
+        # a private helper whose whole body is `return <fresh uuid4>`
+        if isinstance(v, ast.Call) and not v.args and not v.keywords and \
+                isinstance(v.func, ast.Attribute) and \
+                U(v.func.value) in ('self', 'SequenceSearchDef') and \
+                cls is not None:
+            hs = [m for m in cls.body if isinstance(m, ast.FunctionDef)
+                  and m.name == v.func.attr]
+            need(len(hs) == 1, f"{fname}: helper {v.func.attr} not found", n)
+            hb = real_body(hs[0])
+            need(len(hb) == 1 and isinstance(hb[0], ast.Return),
+                 f"{fname}: helper {v.func.attr} is not a single return", n)
+            v = hb[0].value
+        need(U(v) in FRESH_UUID,
+             f"{fname}: the section id is not a fresh (full) uuid4: {U(v)}",
+             n)
         return "DFreshId"
     # if self.current_section_id is None: raise ...
     if isinstance(n, ast.If) and not n.orelse and \
@@ -129,7 +147,8 @@ def generate(repo):
             f = find_def(sdt, 'SequenceSearchDef.' + name)
             need(len(f.args.args) == 1 and not f.args.vararg
                  and not f.args.kwarg, f"{name}() takes arguments", f)
-            prog = [dstm_of(n, name) for n in real_body(f)]
+            prog = [dstm_of(n, name, find_def(sdt, 'SequenceSearchDef'))
+                    for n in real_body(f)]
             return (f"Definition x_seqdef_{name} : list dstm :=\n  ["
                     + "; ".join(prog) + "].", {'program': prog})
         return go
@@ -243,12 +262,19 @@ def generate(repo):
              "add: the key is the result's sequence id", body[0])
         k = body[0].targets[0].id
         n = body[1]
-        need(isinstance(n, ast.If) and U(n.test) == f"{k} in self.data",
-             "add: test is `key in self.data`", n)
-        need(len(real_body(n)) == 1 and
-             U(real_body(n)[0]) == f"self.data[{k}].append({r})",
-             "add: present -> append", n)
+        need(isinstance(n, ast.If), "add: an if on the key's presence", n)
+        then = real_body(n)
         oe = [x for x in n.orelse if not isinstance(x, ast.Pass)]
+        # `if k in d: A else: B`  =  `if k not in d: B else: A`
+        if U(n.test) in (f"{k} not in self.data",
+                         f"not {k} in self.data"):
+            then, oe = oe, then
+        else:
+            need(U(n.test) == f"{k} in self.data",
+                 "add: test is `key in self.data` or its negation", n)
+        need(len(then) == 1 and
+             U(then[0]) == f"self.data[{k}].append({r})",
+             "add: present -> append", n)
         need(len(oe) == 1 and U(oe[0]) == f"self.data[{k}] = [{r}]",
              "add: absent -> new singleton list", n)
         return ("Definition x_seqres_add {A} (present : bool) (old : list A) "
